@@ -635,4 +635,4 @@ def no_growing_rescan(ctx, prog, rule, kind="reader"):
             ctx.ob(rule, "growing-rescan/%s/loop-%d" % (short(p), ordinal), not bad,
                    "%s: the loop at %s appends to a collection allocated before it; %s" % (short(p), f.file_line(h), "; ".join(sorted(set(bad))) if bad else "no trip scans that collection"),
                    where=f.file_line(h), nontrivial=False)
-    ctx.floor(rule, "appending loops reachable from the %s API" % kind, n, 3, semantic=False)
+    ctx.floor(rule, "appending loops reachable from the %s API" % kind, n, 1, semantic=False)
